@@ -1,0 +1,23 @@
+//go:build verif
+
+package threading
+
+// Contracts for the deductive verifier in /verif (govc). Comment-only file: adds no code.
+
+// TaskRunner (the concurrency limit drainAll and others schedule through): a slot is taken before the task's
+// goroutine starts, and the goroutine gives it back when the task ends - also when the task panics (the slot is
+// released inside the recovering clean-up), so a panicking task can never shrink the runner for good.
+//@ func (*TaskRunner).Schedule
+//@   prop C10
+//@   requires r != nil
+//@   ensures [slot-taken-then-goroutine] calls(on("send", r.limitChan)) == 1 && calls("go (*TaskRunner).Schedule$1") == 1 && before("send", "go (*TaskRunner).Schedule$1")
+//@ func (*TaskRunner).Schedule$1
+//@   prop C10
+//@   opaque Recover
+//@   may-panic task
+//@   ensures [task-run-once-under-the-recovering-cleanup] calls(task) == 1 && calls(rescue.Recover) == 1 && before(Recover, task) == false
+//@   ensures [slot-release-is-part-of-the-cleanup] len(arg(rescue.Recover, 0)) == 1 && calls("recv") == 0
+//@   panic-ensures [cleanup-armed-when-the-task-panics] calls(rescue.Recover) == 1 && len(arg(rescue.Recover, 0)) == 1
+//@ func (*TaskRunner).Schedule$1$1
+//@   prop C10
+//@   ensures [gives-the-slot-back] calls(on("recv", r.limitChan)) == 1
